@@ -83,6 +83,26 @@ def zero_guard_rule(ctx: Ctx, model, rid: str, why: str) -> None:
             else:
                 ctx.violation(rid, f"{impl}:_update_circuit:zero-guard:{V}", mod, iff,
                               f"{impl}._update_circuit replaces the fitted coefficient {V} by {norm(lits[0].value)} under `{norm(t)}` instead of `{V} == 0.0`: {why}")
+        # conditional-expression form: V = <stand-in> if <test> else <expr>  (or the mirror image)
+        for asg in [x for x in walk_ordered(upd.node) if isinstance(x, (ast.Assign, ast.AnnAssign)) and isinstance(getattr(x, "value", None), ast.IfExp)]:
+            tgt = asg.targets[0] if isinstance(asg, ast.Assign) else asg.target
+            ife = asg.value
+            is_lit = lambda e: (isinstance(e, ast.Constant) and isinstance(e.value, (int, float))) or norm(e) in ("inf", "-inf")
+            if not isinstance(tgt, ast.Name) or not (is_lit(ife.body) or is_lit(ife.orelse)):
+                continue
+            V = tgt.id
+            n += 1
+            lit, t = (ife.body, ife.test) if is_lit(ife.body) else (ife.orelse, ife.test)
+            ctx.instance(rid, f"{impl}._update_circuit: stand-in {V} = {norm(lit)} only under the exact guard {V} == 0.0")
+            if is_lit(ife.body):
+                exact = isinstance(t, ast.Compare) and len(t.ops) == 1 and isinstance(t.ops[0], ast.Eq) and norm(t.left) == V and isinstance(t.comparators[0], ast.Constant) and t.comparators[0].value == 0
+            else:
+                exact = isinstance(t, ast.Compare) and len(t.ops) == 1 and isinstance(t.ops[0], ast.NotEq) and norm(t.left) == V and isinstance(t.comparators[0], ast.Constant) and t.comparators[0].value == 0
+            if exact:
+                ctx.ok()
+            else:
+                ctx.violation(rid, f"{impl}:_update_circuit:zero-guard:{V}", mod, asg,
+                              f"{impl}._update_circuit replaces the fitted coefficient {V} by {norm(lit)} under `{norm(t)}` instead of `{V} == 0.0`: {why}")
     if n < 4:
         raise AnalysisError(f"zero-guard rule: only {n} stand-in guards found in _update_circuit (floor 4, confirmed by reading)")
 
@@ -419,7 +439,26 @@ def _order(ctx: Ctx, model, impl: str, mod: str) -> None:
                         hi = _r2.text(c_.upper, n).replace(" ", "") if c_.upper is not None else ""
                         cols.add("i + 1" if (lo, hi) in (("1", "len(taus)+1"), ("1", "1+len(taus)"), ("1", "taus.size+1"), ("1", "taus.shape[0]+1")) else f"{lo}:{hi}")
                     else:
-                        cols.add(norm(c_))
+                        txt = norm(c_)
+                        # the column index of the k-th time constant as a function of the enumerate() counter and its start
+                        lp_ = enclosing(n, ast.For)
+                        if lp_ is not None and isinstance(lp_.iter, ast.Call) and dotted(lp_.iter.func) == "enumerate" and isinstance(lp_.target, ast.Tuple) \
+                                and isinstance(lp_.target.elts[0], ast.Name):
+                            iv = lp_.target.elts[0].id
+                            st_ = 0
+                            for kw_ in lp_.iter.keywords:
+                                if kw_.arg == "start" and isinstance(kw_.value, ast.Constant):
+                                    st_ = kw_.value.value
+                            if len(lp_.iter.args) > 1 and isinstance(lp_.iter.args[1], ast.Constant):
+                                st_ = lp_.iter.args[1].value
+                            try:
+                                k_ = sp.Symbol("k")
+                                e_ = sp.sympify(txt, locals={iv: k_ + st_})
+                                if sp.simplify(e_ - (k_ + 1)) == 0:
+                                    txt = "i + 1"
+                            except Exception:
+                                pass
+                        cols.add(txt)
             idx[name] = cols
         ctx.instance("R7.3", f"matrix_inversion column positions {idx}")
         if idx == {"_add_resistance_to_A_matrix": {"0"}, "_add_capacitance_to_A_matrix": {"-2"}, "_add_inductance_to_A_matrix": {"-1"}, "_add_kth_variables_to_A_matrices": {"i + 1"}}:
